@@ -44,7 +44,38 @@ const (
 	utcTimestampNanosFormat   = "20060102-15:04:05.000000000"
 )
 
+// validUTCTimestampChars reports whether bytes has digits everywhere except at the separators of
+// YYYYMMDD-HH:MM:SS[.sss...]. time.Parse alone is more lenient: it also accepts a comma before
+// the fraction and a sign inside it.
+func validUTCTimestampChars(bytes []byte) bool {
+	for i, c := range bytes {
+		switch i {
+		case 8:
+			if c != '-' {
+				return false
+			}
+		case 11, 14:
+			if c != ':' {
+				return false
+			}
+		case 17:
+			if c != '.' {
+				return false
+			}
+		default:
+			if c < '0' || c > '9' {
+				return false
+			}
+		}
+	}
+	return true
+}
+
 func (f *FIXUTCTimestamp) Read(bytes []byte) (err error) {
+	if !validUTCTimestampChars(bytes) {
+		return errors.New("Invalid Value for Timestamp: " + string(bytes))
+	}
+
 	switch len(bytes) {
 	// Seconds.
 	case 17:
